@@ -184,7 +184,29 @@ class Unit:
             self.clauses['c13_w%d.c' % W] = contracts_text(W).splitlines()
             self.files[(W, False)] = scratch.write('gen/h13_w%d.cpp' % W, harness_text(W, False))
             self.files[(W, True)] = scratch.write('gen/h13_w%d_g.cpp' % W, harness_text(W, True))
-        self.sym_cache = {}
+        self.witnesses = []
+        self.witness()
+
+    def witness(self):
+        # R-AUTO witness: the real g++ deduces for every rewritten `auto` exactly the type R-AUTO writes
+        wdir = self.scratch.path('witness', '.keep')
+        wdir = os.path.dirname(wdir)
+        for W in WIDTHS:
+            h = 'celma/format/detail/int%d_str_length.hpp' % W
+            out = os.path.join(wdir, h)
+            os.makedirs(os.path.dirname(out), exist_ok=True)
+            open(out, 'w').write(core.auto_witness_text(open(os.path.join(core.SRC, h)).read()))
+            for pre in ('', 'grouped_'):
+                c = 'library/format/detail/%sint%d_to_string.cpp' % (pre, W)
+                out = os.path.join(wdir, c)
+                os.makedirs(os.path.dirname(out), exist_ok=True)
+                open(out, 'w').write(core.auto_witness_text(open(os.path.join(core.SRC, c)).read()))
+                self.witnesses.append(core.gxx_syntax(out, [wdir, core.SRC], 'R-AUTO type witness ' + c))
+        t = self.scratch.write('witness/lp64.cpp', '#include <cstdint>\n#include <cstddef>\n'
+                               'static_assert(sizeof(int)==4 && sizeof(long)==8 && sizeof(size_t)==8 && sizeof(void*)==8, "LP64");\n'
+                               'static_assert(std::is_same<uint64_t, unsigned long>::value && std::is_same<uint8_t, unsigned char>::value, "stub <cstdint> typedefs");\n'
+                               'static_assert(char(-1) < 0, "char is signed as in CBMC x86_64");\n')
+        self.witnesses.append(core.gxx_syntax(t, [], 'LP64 / <cstdint> stand-in witness', ['-include', 'type_traits']))
 
     def clause_text(self, o):
         lines = self.clauses.get(o.get('file', ''))
@@ -295,3 +317,82 @@ def jobs(unit, tier, only=None):
     if only:
         out = [j for j in out if only in j.name]
     return out
+
+
+# --------------------------------------------------------------------------------------------
+# native replay and evidence
+
+def _num(s):
+    import re
+    m = re.match(r'\s*\(?\s*(-?\d+)', str(s))
+    return int(m.group(1)) if m else 0
+
+
+def replay(unit, job, o, inputs, scratch):
+    """Run the counterexample against the real code (g++, ASan+UBSan, real /repo/src)."""
+    inst = job.instance
+    W = inst.get('width')
+    grouped = bool(inst.get('grouped'))
+    name = job.name
+    kind = next((k for k in ('strlen', 'convert', 'utos', 'negtos', 'itos') if '_' + k in name), None)
+    if kind is None or W is None:
+        return {'outcome': 'unavailable', 'detail': 'no native replay for ' + name}
+    n0 = inst.get('result_len') or inst.get('digits') or 1
+    if kind in ('negtos', 'itos'):
+        val = _num(inputs.get('v', 0))
+    elif kind == 'convert':
+        val = _num(inputs.get('cv_gv', inputs.get('cvin_g', 0)))
+    else:
+        val = _num(inputs.get('v', inputs.get('cvin_g', 0)))
+    g = _num(inputs.get('g', 39)) if grouped else 39
+    return native_replay(scratch, W, grouped, kind, val, n0, g)
+
+
+def native_replay(scratch, W, grouped, kind, val, n0, g):
+    src = os.path.join(core.SRC, 'library/format/detail/%sint%d_to_string.cpp' % ('grouped_' if grouped else '', W))
+    exe = scratch.path('replay', 'c13_w%d_%d' % (W, int(grouped)))
+    if not os.path.exists(exe):
+        cmd = ['g++', '-std=c++17', '-g', '-O0', '-fsanitize=address,undefined', '-fno-sanitize-recover=all',
+               '-I', core.SRC, '-DCV_W=%d' % W, '-DCV_GROUPED=%d' % int(grouped), '-DCV_SRC="%s"' % src,
+               os.path.join(core.VERIF, 'replay', 'c13.cpp'), '-o', exe]
+        rc, out, err, s = core.run(cmd, timeout=300, limit=False)
+        if rc != 0:
+            return {'outcome': 'unavailable', 'detail': 'replay build failed: ' + err[-800:]}
+    args = [exe, kind, str(val), str(n0), str(g)]
+    rc, out, err, s = core.run(args, timeout=60, limit=False)
+    text = (out + err).strip()
+    rep = rc != 0 or 'REPRODUCED:' in out and 'NOT-REPRODUCED' not in out
+    return {'outcome': 'reproduced' if rep else 'not-reproduced',
+            'cmd': 'replay/c13.cpp -DCV_W=%d -DCV_GROUPED=%d: %s' % (W, int(grouped), ' '.join(args[1:])),
+            'args': {'W': W, 'grouped': grouped, 'kind': kind, 'value': val, 'n0': n0, 'g': g},
+            'output': text[-1500:]}
+
+
+def evidence_info(unit, tier):
+    return {
+        'explanation': 'Every buffer variant of the 8 conversion units is enforced against a contract generated from the '
+                       'property statement (digit k = floor(v/10^k) mod 10, NDIG by threshold comparison, NUL, sign, group '
+                       'character positions), for all values of the type: convert() once per result_len (straight-line), '
+                       'intNN_str_length, and the callers once per digit count with callees replaced by their contracts; the '
+                       'case split is covered by a separate obligation. The destination buffer is exactly text+1 bytes, so '
+                       '"nothing beyond the NUL" is a memory-safety obligation. No loop, no unwinding bound.',
+        'trusted_base': ['CBMC 6.11 C++ front end on the accepted subset (R-AUTO removes the silent auto=int deviation)',
+                         'CBMC bit-vector semantics LP64; solvers MiniSat (built in), z3 4.8.12' + (', cvc5 1.0' if tier == 'thorough' else ''),
+                         'stand-in headers <cstdint> <cstring> <string> <climits> (stubs/)',
+                         'CBMC built-in model of strcpy (used by intNNtoString for value 0)',
+                         'extraction rules R-ANON, R-AUTO are semantics-preserving (hit counts checked each run)'],
+        'assumptions': ['std::string variants are exercised only by the native replay and (thorough tier) the string wrapper harness',
+                        'public dispatch templates int2string<T>/grouped_int2string<T> (enable_if) are not under contract: a g++ witness static_asserts they forward to the verified detail:: functions',
+                        'GroupedInt<T,S> stream wrapper not under contract',
+                        'termination not proved (code is loop-free)',
+                        'text-to-value round trip (stringTo<T> = std::sto*) is library code, not under contract'],
+        'not_under_contract': ['celma::format::int2string<T> (dispatch)', 'celma::format::grouped_int2string<T> (dispatch)',
+                               'celma::format::GroupedInt<T,S>', 'celma::format::stringTo<T>'],
+    }
+
+
+def replay_record(rec, scratch):
+    a = rec.get('native_replay', {}).get('args')
+    if not a:
+        return {'outcome': 'unavailable', 'detail': 'record carries no replay arguments'}
+    return native_replay(scratch, a['W'], a['grouped'], a['kind'], a['value'], a['n0'], a['g'])
